@@ -161,6 +161,10 @@ fn typecode_null_constructed() {
     kani::cover!(code == 65280);
     let e = RData::Empty(ref_type_of(code));
     assert!(e.type_code() == ref_type_of(code));
+    // the owned copy still reports the type its code denotes
+    let o = RData::NULL(code, crate::rdata::NULL::new(&[]).unwrap()).into_owned();
+    assert!(o.type_code() == ref_type_of(code), "type_code after into_owned");
+    std::mem::forget(o);
     std::mem::forget(v);
     std::mem::forget(e);
 }
